@@ -14,6 +14,9 @@ are fresh objects, so that no amoco object is shared between two places of a scr
               ["ltuh"] ["geuh"] ["rorh"] ["rolh"]                 (helper functions ltu() geu() ror() rol())
   structure   ["slice", lo, hi]  ["bit", i]  ["compose", n]  ["tst"]  ["zext", n]  ["sext", n]
               ["simp"]  ["simpb"]                                 (x.simplify() / x.simplify(bitslice=True) mid-script)
+  memory      ["mem", name, size, disp, endian, basesize]         mem(reg(name, basesize), size, disp=disp, endian=±1)
+  comp write  ["setpart", lo, hi]                                  pops v then c: `c[lo:hi] = v` through comp.__setitem__
+                                                                  (a non-comp c is wrapped first: cc = comp(c.size); cc[0:c.size] = c)
   raw nodes   ["rawop", name]  ["rawuop", "neg"|"not"]  ["rawslc", pos, size]  ["rawcomp", n]
               the class constructors op(sym,l,r) / uop(sym,r) / slc(x,pos,size) / comp(total) + c[a:b]=part alone,
               WITHOUT the construction-time simplification of the operator API (amoco builds such nodes itself —
@@ -51,6 +54,9 @@ class ScriptError(Exception):
     pass
 
 
+last_mid = []    # comps dumped right after each `setpart` of the last `run` (also when the run raised later)
+
+
 def reset_globals():
     """bit0/bit1 are process-global cst objects that operators can mutate (sf); start every run clean.
     returns True when they were found dirty."""
@@ -76,7 +82,7 @@ def leaf_signs(e):
     return frozenset(out)
 
 
-def build(script, decl=None):
+def build(script, decl=None, mid=None):
     """execute the script; returns the single resulting expression.
     decl (list) receives, per binary instruction index, (k, l.sf, r.sf, signs) observed on the operand
     objects just before the operator is applied (= what the user declared): `signs` is the set of sf flags
@@ -93,6 +99,25 @@ def build(script, decl=None):
             st.append(ext(ins[1], size=ins[2]))
         elif o == "top":
             st.append(top(ins[1]))
+        elif o == "mem":
+            st.append(mem(reg(ins[1], ins[5]), ins[2], disp=ins[3], endian=ins[4]))
+        elif o == "setpart":
+            v = st.pop()
+            c = st.pop()
+            if type(c) is not comp:
+                cc = comp(c.size)
+                cc[0:c.size] = c
+                c = cc
+            try:
+                c[ins[1]:ins[2]] = v
+            finally:
+                if mid is not None:
+                    # the comp as it is right after the write (K-tie: parts tile the width, smask agrees)
+                    try:
+                        mid.append(dump(c, smask=True))
+                    except Exception:
+                        pass
+            st.append(c)
         elif o == "signed":
             st.append(st.pop().signed())
         elif o == "unsigned":
@@ -379,9 +404,12 @@ def run(script, action, complexity=0):
     conf.Cas.complexity = complexity
     reset_globals()
     decl = []
+    mid = []
+    global last_mid
+    last_mid = mid
     try:
         def f():
-            e = build(script, decl)
+            e = build(script, decl, mid)
             a = action[0]
             if a == "build":
                 return e
